@@ -3,6 +3,7 @@ package main
 import (
 	"fmt"
 	"go/token"
+	"go/types"
 	"os"
 	"sort"
 	"strings"
@@ -120,6 +121,15 @@ func ruleEval(c *Ctx, mode string) *RuleResult {
 		uni = UGo
 	}
 	agg := c.newExec(uni, "")
+	// one budget for all the interpreter runs of this rule: a change that makes
+	// the state space explode ends in "not decided", not in a check that never returns
+	const evalBudget = int64(300000000)
+	budget := evalBudget
+	defer func() {
+		if os.Getenv("KEVAL_BUDGET") != "" {
+			fmt.Fprintf(os.Stderr, "K-EVAL/%s used %d steps of %d\n", mode, evalBudget-budget, evalBudget)
+		}
+	}()
 	newX := func(label string) *Exec {
 		x := c.newExec(uni, label)
 		if mode == "go" {
@@ -135,6 +145,7 @@ func ruleEval(c *Ctx, mode string) *RuleResult {
 		x.events = agg.events
 		x.gaps = agg.gaps
 		x.truncP = &agg.trunc
+		x.budget = &budget
 		if mode == "go" {
 			x.limit = 40000000 // the Go universe has twice the atoms: some projection runs need more steps to reach their fixpoint
 		}
@@ -889,6 +900,50 @@ func ruleAllElems(c *Ctx) *RuleResult {
 						bad = "an edge leaves the loop to " + s.String() + " without exhausting it"
 					}
 				}
+			}
+			// a loop over the children of a node (pipe stages, multi-select
+			// members, function arguments): every round evaluates its child — no
+			// way back to the loop header that passes no evaluation
+			if sl, isSl := call.Call.Args[0].Type().Underlying().(*types.Slice); bad == "" && isSl && c.isASTNode(sl.Elem()) {
+				evals := map[*ssa.BasicBlock]bool{}
+				for _, bb := range fn.Blocks {
+					for _, in := range bb.Instrs {
+						cl2, ok := in.(*ssa.Call)
+						if !ok {
+							continue
+						}
+						if sc := staticCallee(cl2); sc != nil {
+							if sc == c.A.Exec {
+								evals[bb] = true
+							}
+							for _, hf := range c.A.Helpers {
+								if sc == hf {
+									evals[bb] = true
+								}
+							}
+						} else if cl2.Call.IsInvoke() && cl2.Call.Method.Name() == c.A.Exec.Name() {
+							evals[bb] = true
+						}
+					}
+				}
+				seenB := map[*ssa.BasicBlock]bool{}
+				var walk func(bb *ssa.BasicBlock)
+				walk = func(bb *ssa.BasicBlock) {
+					if bad != "" || seenB[bb] || evals[bb] {
+						return
+					}
+					seenB[bb] = true
+					for _, sb := range bb.Succs {
+						if sb == b {
+							bad = "a round of the loop over the node's children can go back to the loop header at " + c.pos(bb.Instrs[len(bb.Instrs)-1].Pos()) + " without evaluating its child: a pipe stage, member or argument can be skipped"
+							return
+						}
+						if b.Dominates(sb) {
+							walk(sb)
+						}
+					}
+				}
+				walk(body)
 			}
 			if bad == "" {
 				r.ok(key, c.pos(bo.Pos()), fname(fn), "left only through i >= len or an error return")
